@@ -542,6 +542,7 @@ func (c *Client) registerContReq(cmd command) *imapwire.ContinuationRequest {
 }
 
 func (c *Client) closeWithError(err error) {
+	verifPoint("close.begin", "")
 	c.conn.Close()
 
 	c.mutex.Lock()
